@@ -37,14 +37,24 @@ pub struct Opt {
 	pub fam: Fam,
 	/// allow `%XX` octets that are not well-formed UTF-8
 	pub nonutf8: bool,
+	/// also emit characters that the grammar does NOT allow at this place
+	/// (private-use code points, delimiters of other components). Only used for
+	/// arguments that are filtered through the library's own checked constructor
+	/// afterwards: a constructor that wrongly accepts one lets the editing checks
+	/// see the ill-formed buffer it produces.
+	pub invalid: bool,
 }
 
 impl Opt {
 	pub fn new(fam: Fam) -> Self {
-		Opt { fam, nonutf8: false }
+		Opt { fam, nonutf8: false, invalid: false }
 	}
 	pub fn with_nonutf8(mut self, v: bool) -> Self {
 		self.nonutf8 = v;
+		self
+	}
+	pub fn with_invalid(mut self, v: bool) -> Self {
+		self.invalid = v;
 		self
 	}
 }
@@ -63,6 +73,10 @@ pub const PCT_NONUTF8: &[&str] = &[
 pub const NONASCII: &[&str] = &[
 	"\u{e9}", "\u{8a9e}", "\u{10000}", "\u{a0}", "\u{d7ff}", "\u{f900}", "\u{fdcf}", "\u{fdf0}",
 	"\u{ffef}", "\u{1fffd}", "\u{e1000}", "\u{efffd}", "\u{3b1}\u{3b2}",
+	// UTF-8 trail bytes equal to '/', '?', '#', ':', '%', '@'-ish + 0x80 (C3 AF, C2 BF, C2 A3, C2 BA, C2 A5, E5 AF BA)
+	"\u{ef}", "\u{bf}", "\u{a3}", "\u{ba}", "\u{a5}", "\u{5bfa}",
+	// 4-byte characters of several planes (lead bytes F0, F1, F3)
+	"\u{1f50d}", "\u{2a6d6}", "\u{3fffd}", "\u{40000}", "\u{dfffd}",
 ];
 
 pub const IPRIVATE: &[&str] = &["\u{e000}", "\u{f8ff}", "\u{f0000}", "\u{ffffd}", "\u{100000}", "\u{10fffd}"];
@@ -84,6 +98,9 @@ fn pieces(o: Opt, extra: &[&str]) -> Vec<String> {
 	v.extend(pct_pool(o));
 	if o.fam == Fam::Iri {
 		v.extend(sv(NONASCII));
+	}
+	if o.invalid {
+		v.extend(sv(&["\u{e000}", "\u{f8ff}", "\u{100000}", "\u{fffe}", "#", "?", "/", "[", "]", " ", "%", "\u{e9}"]));
 	}
 	v
 }
@@ -173,6 +190,13 @@ pub fn port() -> BoxedStrategy<String> {
 	.boxed()
 }
 
+/// Long text (> 512 bytes) with a percent-escape straddling a 512-byte boundary.
+fn long_with_escape(o: Opt) -> BoxedStrategy<String> {
+	(select(vec![505usize, 508, 509, 510, 511, 512, 513, 1020, 1021, 1022, 1023, 1024]), select(pct_pool(o)), 0usize..40)
+		.prop_map(|(n, esc, tail)| format!("{}{}{}", "q".repeat(n), esc, "t".repeat(tail)))
+		.boxed()
+}
+
 pub fn query(o: Opt) -> BoxedStrategy<String> {
 	let p = pool(
 		o,
@@ -181,8 +205,9 @@ pub fn query(o: Opt) -> BoxedStrategy<String> {
 		true,
 	);
 	prop_oneof![
-		8 => select(p),
-		2 => raw(o, &[":", "@", "/", "?"], 10),
+		32 => select(p),
+		8 => raw(o, &[":", "@", "/", "?"], 10),
+		1 => long_with_escape(o),
 	]
 	.boxed()
 }
@@ -195,8 +220,9 @@ pub fn fragment(o: Opt) -> BoxedStrategy<String> {
 		true,
 	);
 	prop_oneof![
-		8 => select(p),
-		2 => raw(o, &[":", "@", "/", "?"], 10),
+		32 => select(p),
+		8 => raw(o, &[":", "@", "/", "?"], 10),
+		1 => long_with_escape(o),
 	]
 	.boxed()
 }
@@ -243,13 +269,36 @@ pub fn segments(o: Opt) -> BoxedStrategy<Vec<String>> {
 /// Segment lists rich in dot and empty segments (for normalisation / resolution).
 pub fn dotty_segments(o: Opt) -> BoxedStrategy<Vec<String>> {
 	let one = prop_oneof![
-		4 => select(sv(&[".", "..", "", ".."])),
-		4 => plain_segment(o),
-		1 => segment(o),
+		8 => select(sv(&[".", "..", "", ".."])),
+		1 => select(sv(&["%2E%2E", ".%2e", "%2e", "%2E.", "a:b", ":"])),
+		8 => plain_segment(o),
+		2 => segment(o),
 	];
 	prop_oneof![
-		85 => vec(one.clone(), 0..=6),
-		15 => vec(one, 7..=24),
+		80 => vec(one.clone(), 0..=6),
+		14 => vec(one.clone(), 7..=24),
+		// beyond the 512-byte inline buffer: a dot-rich head, a long plain tail, a dot-rich end
+		4 => (vec(one.clone(), 0..=5), 40usize..90, vec(one.clone(), 0..=3)).prop_map(|(head, n, tail)| {
+			let mut v = head;
+			for i in 0..n {
+				v.push(format!("seg{:04}x", i));
+			}
+			v.extend(tail);
+			v
+		}),
+		// a long run that cancels itself exactly (n names, n '..'), so that the normal form of
+		// a > 512-byte path is decided by the few segments after it (including the lone empty segment)
+		2 => (60usize..100, vec(one, 0..=3)).prop_map(|(n, tail)| {
+			let mut v = vec![];
+			for i in 0..n {
+				v.push(format!("c{:03}", i));
+			}
+			for _ in 0..n {
+				v.push("..".to_string());
+			}
+			v.extend(tail);
+			v
+		}),
 	]
 	.boxed()
 }
@@ -314,6 +363,7 @@ pub fn ref_parts(o: Opt, full: bool) -> BoxedStrategy<Parts> {
 
 /// Like `ref_parts` with a custom segment strategy and presence weights (out of 10).
 pub fn ref_parts_with(o: Opt, full: bool, segs: BoxedStrategy<Vec<String>>, p_scheme: u32, p_auth: u32) -> BoxedStrategy<Parts> {
+	let fam = o.fam;
 	(
 		opt_of(scheme(), p_scheme),
 		opt_of(authority(o), p_auth),
@@ -321,11 +371,77 @@ pub fn ref_parts_with(o: Opt, full: bool, segs: BoxedStrategy<Vec<String>>, p_sc
 		segs,
 		opt_of(query(o), 4),
 		opt_of(fragment(o), 4),
+		// 4 %: stretch a component so that its end (and so the next delimiter) lands on a block boundary
+		prop_oneof![24 => Just(None), 1 => (select(BOUNDARIES.to_vec()), any::<u8>(), any::<bool>()).prop_map(Some)],
 	)
-		.prop_map(move |(scheme, authority, abs, segs, query, fragment)| {
-			repair(Parts { scheme, authority, path: String::new(), query, fragment }, abs, segs, full)
+		.prop_map(move |(scheme, authority, abs, segs, query, fragment, st)| {
+			let p = repair(Parts { scheme, authority, path: String::new(), query, fragment }, abs, segs, full);
+			match st {
+				None => p,
+				Some((target, which, multibyte)) => stretch(p, target, which, if multibyte && fam == Fam::Iri { "\u{8a9e}" } else { "x" }),
+			}
 		})
 		.boxed()
+}
+
+/// Offsets at which block-wise scanners tend to go wrong.
+pub const BOUNDARIES: &[usize] = &[15, 16, 17, 63, 64, 255, 256, 510, 511, 512, 513, 1023, 1024, 1025, 2047, 2048, 4095, 4096, 4097, 8191, 8192];
+
+/// Pads the path (which = 0), the query (1) or the authority (2) of `p` with
+/// filler so that the END of that component lands exactly on byte offset
+/// `target` of the recomposed text (when it is not already beyond it).
+pub fn stretch(mut p: Parts, target: usize, which: u8, filler: &str) -> Parts {
+	let head = |p: &Parts| p.scheme.as_ref().map(|s| s.len() + 1).unwrap_or(0) + p.authority.as_ref().map(|a| a.len() + 2).unwrap_or(0);
+	let unit = filler.len().max(1);
+	match which % 3 {
+		0 => {
+			let end = head(&p) + p.path.len();
+			if end < target {
+				let mut need = target - end;
+				if p.path.is_empty() || p.path.ends_with("/.") || p.path.ends_with("/..") || p.path == "." || p.path == ".." {
+					if p.authority.is_some() || !p.path.is_empty() {
+						p.path.push('/');
+						need = need.saturating_sub(1);
+					}
+				}
+				for _ in 0..need / unit {
+					p.path.push_str(filler)
+				}
+				for _ in 0..need % unit {
+					p.path.push('x')
+				}
+			}
+		}
+		1 => {
+			let base = head(&p) + p.path.len() + 1;
+			if let Some(q) = p.query.as_mut() {
+				let end = base + q.len();
+				if end < target {
+					let need = target - end;
+					for _ in 0..need / unit {
+						q.push_str(filler)
+					}
+					for _ in 0..need % unit {
+						q.push('x')
+					}
+				}
+			}
+		}
+		_ => {
+			if let Some(a) = p.authority.clone() {
+				let mut ap = crate::oracle::split::split_authority(&a);
+				let end = head(&p);
+				if end < target && !ap.host.starts_with('[') {
+					let need = target - end;
+					for _ in 0..need {
+						ap.host.push('h')
+					}
+					p.authority = Some(recompose_authority(&ap));
+				}
+			}
+		}
+	}
+	p
 }
 
 /// G-REF: reference text (URI-reference / IRI-reference, or full URI / IRI when `full`).
@@ -459,6 +575,9 @@ pub enum Variant {
 	HostCase,
 	SwapSegments(u16),
 	AppendSegment,
+	/// percent-encode EVERY character of the host that is not unreserved (an
+	/// IP-literal becomes a registered name that decodes to the same octets)
+	EncodeWholeHost(bool),
 	/// join segments k and k+1 with a character that sorts below '/' (near miss
 	/// that distinguishes byte order from segment order)
 	MergeSegments(u16, u8),
@@ -483,6 +602,7 @@ pub fn variant() -> BoxedStrategy<Variant> {
 		1 => any::<u16>().prop_map(Variant::SwapSegments),
 		1 => Just(Variant::AppendSegment),
 		2 => (any::<u16>(), any::<u8>()).prop_map(|(k, c)| Variant::MergeSegments(k, c)),
+		1 => any::<bool>().prop_map(Variant::EncodeWholeHost),
 	]
 	.boxed()
 }
@@ -734,6 +854,23 @@ pub fn apply_variant(p: &Parts, v: &Variant) -> Parts {
 		Variant::AppendSegment => {
 			sg.push("z".into());
 			set_path(&mut q, abs, sg);
+		}
+		Variant::EncodeWholeHost(upper) => {
+			if let Some(a) = &q.authority {
+				let mut ap = split_authority(a);
+				let mut h = String::new();
+				for c in ap.host.chars() {
+					if c == '%' || is_unreserved(c) || !c.is_ascii() {
+						h.push(c)
+					} else if *upper {
+						h.push_str(&format!("%{:02X}", c as u32))
+					} else {
+						h.push_str(&format!("%{:02x}", c as u32))
+					}
+				}
+				ap.host = h;
+				q.authority = Some(recompose_authority(&ap));
+			}
 		}
 		Variant::MergeSegments(k, c) => {
 			if sg.len() >= 2 {
